@@ -470,6 +470,13 @@ def gen_cases(rng, tier):
     HEAVY[0] = tier == "thorough"
     cases = [] if tier == "search" else _live_cases()
     big = [] if tier == "search" else _big_cases(tier)
+    # ---- handles: copies / deep copies taken inside or outside oneshot() blocks, kernel changes (wave 8; always the full block)
+    if tier != "search":
+        import sys
+        from props import _c13_handles as H
+        cases += H.systematic(sys.modules[__name__], rng)
+        for _ in range(8 if tier == "quick" else 120):
+            cases.append(H.random_history(sys.modules[__name__], rng))
     # ---- statm
     for _ in range(n):
         cases.append({"kind": "statm", "cls": "statm", "pagesize": _pagesize(rng), "statm": _statm(rng)})
@@ -715,6 +722,10 @@ def coq_term(case):
         return "run_statm %s %s" % (G.z(case["pagesize"]), _g_statm(case["statm"]))
     if k == "live_direct":
         return "JL []"
+    if k == "handles":
+        import sys
+        from props import _c13_handles as H
+        return H.coq_term(sys.modules[__name__], case)
     if k == "percent_hist":
         ops = []
         for o in case["ops"]:
@@ -772,6 +783,8 @@ def coq_struct(case, raw):
         return {"model": raw[0], "spec": raw[1]}
     if k == "percent_hist":
         return {"printed": raw[:2], "model": raw[2], "spec": raw[3]}
+    if k == "handles":
+        return {"printed": raw[0], "model": raw[1], "spec": raw[2]}
     if k == "big":
         return {"printed": raw[5], "len": raw[0], "cksum": [raw[1], raw[2]], "model": raw[3], "spec": raw[4]}
     if k == "live":
@@ -868,6 +881,10 @@ def judge(case, coq, impl):
         if impl != coq["spec"]:
             return Verdict("violation", "over the real /proc, the chosen mappings of a real child are not reported as mapped")
         return Verdict("ok")
+    if k == "handles":
+        import sys
+        from props import _c13_handles as H
+        return H.judge(sys.modules[__name__], case, coq, impl)
     if k == "percent_hist":
         spec, model = coq["spec"], coq["model"]
         same = lambda a, b: isinstance(a, list) and isinstance(b, list) and len(a) == len(b) and all(_ratio_close(x, y) for x, y in zip(a, b))
@@ -1107,6 +1124,10 @@ def impl_run(case, coq, env):
         return _impl_live_direct(env)
     if case["kind"] == "big":
         return _impl_big(case, coq, env)
+    if case["kind"] == "handles":
+        import sys
+        from props import _c13_handles as H
+        return H.impl_run(sys.modules[__name__], case, coq, env)
     if case["kind"] == "live":
         for what, pr, real in zip(("smaps", "smaps_rollup", "statm"), coq["printed"], case["real"]):
             _check_printed(what, unB(pr), bytes.fromhex(real))
